@@ -624,6 +624,7 @@ namespace bloch::runtime {
         m_heap.clear();
         m_pendingArgs.clear();
         m_pendingObjects.clear();
+        m_heldGarbage.clear();
         m_pendingDestructorError = nullptr;
         m_currentClassCtx = nullptr;
         m_inStaticContext = false;
@@ -755,6 +756,7 @@ namespace bloch::runtime {
             }
         }
         m_returnValue = {};
+        m_heldGarbage.clear();
         while (!m_env.empty()) m_env.pop_back();
         for (auto& kv : m_classTable) {
             if (kv.second)
@@ -1736,8 +1738,15 @@ namespace bloch::runtime {
             if (obj->marked || !obj->cls)
                 continue;
             obj->skipDestructor = true;
-            if (!obj->cls->hasTrackedFields)
+            if (!obj->cls->hasTrackedFields) {
                 unreachable.push_back(obj);
+            } else if (!obj->heldAsGarbage) {
+                // Sweeping its owner must not be what ends it: a @tracked field would be
+                // recorded at a moment the timer picked (before or after the program measures
+                // the qubit it names).
+                obj->heldAsGarbage = true;
+                m_heldGarbage.push_back(obj);
+            }
         }
         for (auto& obj : unreachable) {
             for (auto& f : obj->fields) f = {};
